@@ -683,13 +683,31 @@ fn test_components() {
     assert_eq!(set.get_components().len(), 2);
 }
 
+/// 以固定密钥的子散列器计算单个词项的散列值
+/// * 🎯用于「与顺序无关」的散列合并
+fn hash_term_alone(term: &Term) -> u64 {
+    use std::hash::Hasher;
+    let mut sub_state = std::collections::hash_map::DefaultHasher::new();
+    term.hash(&mut sub_state);
+    sub_state.finish()
+}
+
 /// 散列化「无序不重复词项容器」
-/// * ⚠️潜在假设：集合相同⇒遍历顺序相同⇒散列化顺序相同⇒散列化结果相同
+/// * 🚩各元素的散列值以可交换的方式（回绕加法）合并，结果与遍历顺序无关
+///   * 📌相同集合的两个实例，其遍历顺序可能不同（每个实例有各自的随机散列状态）
 fn hash_term_set<H: std::hash::Hasher>(set: &TermSetType, state: &mut H) {
-    // 逐个元素散列化
+    let mut sum: u64 = 0;
     for term in set {
-        term.hash(state)
+        sum = sum.wrapping_add(hash_term_alone(term));
     }
+    state.write_usize(set.len());
+    state.write_u64(sum);
+}
+
+/// 散列化「二元无序」陈述的两个词项
+/// * 🚩与[`PartialEq`]一致：交换主谓词后散列值不变
+fn hash_term_pair_unordered<H: std::hash::Hasher>(t1: &Term, t2: &Term, state: &mut H) {
+    state.write_u64(hash_term_alone(t1).wrapping_add(hash_term_alone(t2)));
 }
 
 /// 实现/散列化逻辑
@@ -748,16 +766,17 @@ impl Hash for Term {
             ConjunctionParallel(set) => hash_term_set(set, state),
             // 陈述
             Inheritance(t1, t2)
-            | Similarity(t1, t2)
             | Implication(t1, t2)
-            | Equivalence(t1, t2)
             | ImplicationPredictive(t1, t2)
             | ImplicationConcurrent(t1, t2)
             | ImplicationRetrospective(t1, t2)
-            | EquivalencePredictive(t1, t2)
-            | EquivalenceConcurrent(t1, t2) => {
+            | EquivalencePredictive(t1, t2) => {
                 t1.hash(state);
                 t2.hash(state);
+            }
+            // 二元无序陈述：与判等逻辑一致，不区分主谓词顺序
+            Similarity(t1, t2) | Equivalence(t1, t2) | EquivalenceConcurrent(t1, t2) => {
+                hash_term_pair_unordered(t1, t2, state)
             }
         }
     }
